@@ -26,7 +26,7 @@ PROPS = {
     'C13': {'units': ['sym', 'symx'], 'kani': []},
     'C09': {'units': ['prep', 'mult', 'pread', 'pphase', 'ptrace'], 'kani': []},
     'C08': {'units': ['mmcs', 'hash', 'mbind', 'vbatch', 'vbatchx'], 'kani': []},
-    'C16': {'units': ['meta', 'vrfy', 'serde16'], 'kani': []},
+    'C16': {'units': ['meta', 'vrfy', 'serde16', 'manif'], 'kani': []},
     'C11': {'units': ['air', 'alu', 'run19', 'tracegen', 'pchain'], 'kani': [], 'only': {'run19': r'execute_alu_op'}},
 }
 
